@@ -269,7 +269,7 @@ def pytest_runtest_setup(item):
 def pytest_runtest_teardown(item, nextitem):
     if OUT and R.test is not None:
         if R.events or R.unsupported:
-            hdr = {'subs': {h: R.subs.get(h, []) for h in HS}, 'beh': {h: R.beh.get(h, ['nop', '-']) for h in HS}}
+            hdr = {'subs': {h: R.subs.get(h, []) for h in HS}, 'beh': {h: R.beh.get(h, ['nop', '-']) for h in HS}, 'ids': False}
             _RESULTS.append({'test': R.test, 'unsupported': R.unsupported, 'header': hdr, 'events': R.events})
         R.reset(None)
 
